@@ -67,6 +67,10 @@ author would again find dimensions the generators hold fixed. The misses fell in
    C04), a parent with a variable but no parameter (C12), fault classes missing from the catalogue (C20);
 2. a sound oracle whose interesting class was too rare for the quick budget (DAE + collocation roots + M>1 in C07
    and C10, per-node parameters inside shifted operands in C09);
+   From the fourth round on the authors moved to call order: a declaration or value issued *after* a first transcription
+   (C05 late term, C12 edit through a sub-stage, C13 options edited in place, C09/C13 set_value followed by set_initial,
+   C18 guess for a free horizon dropped on save) — histories are C13's subject, and several of these were caught there
+   first and only then added to the aimed check;
 3. an observable the check did not look at — collocation root times in C06, raw variable identity at roots in
    C07, accessor membership after load in C18, the second derivative of a spline with T≠1 in C16/C17, the start
    of the local time grid in C11, which root a scaled algebraic guess leads to in C14, what the parent's own
